@@ -8,6 +8,7 @@ from . import replayrun
 PRELUDE = ('fn g(p: &i32) -> i32\n{\n\tp = 2;\n\treturn: p\n}\n\n'
            'fn h(v: i32) -> i32\n{\n\treturn: v\n}\n\n'
            'fn k(p: &i32)\n{\n\tp = 2;\n}\n\n'
+           'fn gu(p: &i32) -> usize\n{\n\tp = 2;\n\treturn: 0\n}\n\n'
            'const K: i32 = 1;\n\n')
 
 # name: (parameter list, local declarations, place expression, mutable?)
@@ -34,6 +35,10 @@ CONTEXTS = {
     'then branch': ('', '\tvar c: i32 = 1;\n\tif c == 1\n\t{\n\t\tvar r = E;\n\t}\n', ''),
     'else branch': ('', '\tvar c: i32 = 1;\n\tif c == 1\n\t{\n\t\tc = 2;\n\t}\n\telse\n\t{\n\t\tvar r = E;\n\t}\n', ''),
     'argument of call in return value': (' -> i32', '', '\treturn: h(E)\n'),
+    # EU = gu(&PLACE), a call that returns a usize
+    'index of an element that is read': ('', '\tvar t: [3]i32 = [1, 2, 3];\n\tvar r: i32 = t[EU];\n', ''),
+    'index of an element that is assigned': ('', '\tvar t: [3]i32 = [1, 2, 3];\n\tt[EU] = 1;\n', ''),
+    'index of an element passed as an argument': ('', '\tvar t: [3]i32 = [1, 2, 3];\n\tvar r = h(t[EU]);\n', ''),
 }
 
 
@@ -46,9 +51,14 @@ def cases():
             continue   # the address of an element is not part of the by-construction family (index typing rules interfere)
         out.append(('%sfn f(%s)\n{\n%s\tk(&%s);\n}\n' % (PRELUDE, params, locs, place), exp, 'address of %s passed to a writing callee (statement call)' % tn))
         for cn, (ret, body, tail) in CONTEXTS.items():
-            e = 'g(&%s)' % place
-            src = '%sfn f(%s)%s\n{\n%s%s%s}\n' % (PRELUDE, params, ret, locs, body.replace('E', e), tail.replace('E', e))
+            e, eu = 'g(&%s)' % place, 'gu(&%s)' % place
+            fill = lambda t, a, b: t.replace('EU', '\x00').replace('E', a).replace('\x00', b)
+            src = '%sfn f(%s)%s\n{\n%s%s%s}\n' % (PRELUDE, params, ret, locs, fill(body, e, eu), fill(tail, e, eu))
             out.append((src, exp, 'address of %s passed to a writing callee, in: %s' % (tn, cn)))
+            if tn == 'var':
+                # the address must be EXPLICIT: the same call without `&` is rejected wherever it stands
+                src = '%sfn f(%s)%s\n{\n%s%s%s}\n' % (PRELUDE, params, ret, locs, fill(body, 'g(%s)' % place, 'gu(%s)' % place), fill(tail, 'g(%s)' % place, 'gu(%s)' % place))
+                out.append((src, 'reject:513', 'a var passed WITHOUT & to a pointer parameter, in: %s' % cn))
     return out
 
 
